@@ -52,7 +52,7 @@ func (fs *FileSystem) Store(bom *sbom.Document, opts *StoreOptions) error {
 	switch {
 	// Check if the data directory exists
 	case err != nil && errors.Is(err, os.ErrNotExist):
-		if err := os.MkdirAll(fs.Options.Path, os.FileMode(0o644)); err != nil {
+		if err := os.MkdirAll(fs.Options.Path, os.FileMode(0o755)); err != nil {
 			return fmt.Errorf("error creating filesystem backend storage directory")
 		}
 	case err != nil:
